@@ -5,7 +5,7 @@ jobs=${1:-6}; filter=${2:-}
 cd /verif
 one() {
   s=$1
-  props=$(/venv/bin/python -c "import json;m=json.load(open('/verif/$s/meta.json'));print(' '.join(sorted(set([m['property']]+list(m.get('caught_by',{}).keys())))))")
+  props=$(/venv/bin/python -c "import json;m=json.load(open('/verif/$s/meta.json'));print(' '.join(sorted(m.get('caught_by',{}).keys())))")
   d=$(mktemp -d /tmp/sv-seed-XXXXXX)
   git -C /repo archive HEAD pymablock | tar -x -C "$d"
   cp /repo/pymablock/_version.py "$d/pymablock/" 2>/dev/null
